@@ -150,8 +150,8 @@ def rule_debug_tuple_sibling(ctx):
             diffs = []
             for on in (True, False):
                 for nl in (True, False):
-                    a = X.run_loop_body(df[dq], {}, on, nl)
-                    b = X.run_loop_body(cf[cqs[0]], {}, on, nl)
+                    a = X.run_loop_body(df[dq], {fn.name: fn for fn in A.functions(lib) if fn.qual.startswith("Padded::")}, on, nl)
+                    b = X.run_loop_body(cf[cqs[0]], {fn.name: fn for fn in A.functions(core) if fn.qual.startswith("PadAdapter::")}, on, nl)
                     ctx.instance(f"sibexec:pad-adapter:on_newline={on},piece_ends_newline={nl}", sample={"trace": [str(t) for t in a[1]]})
                     if A.alpha(a[0]) != A.alpha(b[0]) or a[1:] != b[1:]:
                         diffs.append(((on, nl), a, b))
@@ -171,6 +171,23 @@ def rule_debug_tuple_sibling(ctx):
                 )
         except X.Unsupported as u:
             ctx.note(f"SIB-EXEC cannot evaluate the padding adapter ({u}); textual comparison used")
+    # the constructor: what is written first and how the builder starts
+    if "debug_tuple" in df and "debug_tuple_new" in cf:
+        try:
+            a = X.run_constructor(df["debug_tuple"])
+            b = X.run_constructor(cf["debug_tuple_new"])
+            ctx.instance("sibexec:constructor", sample={"trace": [str(t) for t in a[0]], "builder": str(a[1])[:160]})
+            executed.add("constructor")
+            if a != b:
+                ctx.report(
+                    "sib:constructor",
+                    ctx.where(lib, df["debug_tuple"].node),
+                    f"`debug_tuple` starts the builder differently from core's `debug_tuple_new`: derive_more {[str(t) for t in a[0]]} -> {a[1]}, core {[str(t) for t in b[0]]} -> {b[1]}: "
+                    "e.g. `fmt.pad(name)` instead of `fmt.write_str(name)` applies the caller's width / precision to the type name",
+                    {},
+                )
+        except X.Unsupported as u:
+            ctx.note(f"SIB-EXEC cannot evaluate the constructor ({u}); textual comparison used")
     for dq, cq, name in pairs:
         if name in executed:
             continue
